@@ -597,3 +597,52 @@ func sortedSets(sets [][]int) []string {
 	sort.Strings(r)
 	return r
 }
+
+// builtBy returns g as a DenseGraph and a SparseGraph produced by the library's own constructors or decoders
+// ("literal" = assembled from the exported fields). Edit histories and transformations must work on all of them.
+var buildWays = []string{"literal", "constructors", "decoders", "edited"}
+
+func builtBy(how string, g *oracle.G) (d *graph.DenseGraph, s *graph.SparseGraph, err error) {
+	if p := try(func() {
+		switch how {
+		case "constructors":
+			n := g.N
+			b := make([]byte, n*(n-1)/2)
+			for _, e := range g.Edges() {
+				b[e[1]*(e[1]-1)/2+e[0]] = 1
+			}
+			d = graph.NewDense(n, b)
+			lists := make([]sortints.SortedInts, n)
+			for v := range lists {
+				lists[v] = sortints.SortedInts(g.Nbrs(v))
+			}
+			s = graph.NewSparse(n, lists)
+		case "decoders":
+			var e1, e2 error
+			d, e1 = graph.Graph6Decode(oracle.RefGraph6(g))
+			s, e2 = graph.Sparse6Decode(oracle.RefSparse6(g))
+			if e1 != nil || e2 != nil {
+				err = fmt.Errorf("decoding the reference encoding failed: %v %v", e1, e2)
+			}
+		case "edited":
+			// built by the editing API from the empty graph
+			d = graph.NewDense(0, nil)
+			s = graph.NewSparse(0, nil)
+			for v := 0; v < g.N; v++ {
+				var nb []int
+				for _, u := range g.Nbrs(v) {
+					if u < v {
+						nb = append(nb, u)
+					}
+				}
+				d.AddVertex(nb)
+				s.AddVertex(nb)
+			}
+		default:
+			d, s = denseOf(g), sparseOf(g)
+		}
+	}); p != nil {
+		return nil, nil, fmt.Errorf("building the graph (%s) panicked: %v", how, p)
+	}
+	return d, s, err
+}
